@@ -3,7 +3,7 @@
 Every oracle is a validity predicate on the returned tables (parent / children / edges / traverse / trees / roots) against a
 reference graph built from the raw case (vlib.topo + vlib.ref_graph); no particular tree is ever expected.
 """
-import math, copy, contextlib, gc, random
+import math, copy, contextlib, gc, random, collections, os, json, hashlib
 import numpy as np
 from collections import Counter
 from hypothesis import strategies as st
@@ -44,12 +44,38 @@ RULE = ("Meshes: generated polylines (paths, cycles, trees, random simple graphs
         "1-3 predecessor meshes with the same element counts but another numbering are built, spanned by the same kind of tree, dropped "
         "and garbage collected (id()-keyed caches). The caller's exclusion set / weights object may be edited in place between the first "
         "and the second tree (the second tree must follow the edit). copy.copy / copy.deepcopy of a computed tree answer like the "
-        "original. Polylines with shuffled vertex ids and edge order; sparse weight attributes written in decreasing index order.")
+        "original. Polylines with shuffled vertex ids and edge order; sparse weight attributes written in decreasing index order. "
+        "Spelling of the calls (drawn per case, labelled call= / flag= / run=): every documented constructor parameter by position in the "
+        "documented order / every parameter incl. the mesh by keyword / parameters equal to their documented default left out (weights "
+        "omitted = 'length', root omitted = random, no exclusion set) / the earlier mixed spelling; avoid_boundary as bool, numpy.bool_ or "
+        "0 / 1; the tree or forest run as obj() or obj.compute(); traverse() with the order left out (= 'BFS'), by position and by keyword. "
+        "Special ids: root (and second root) 0 and the LAST element each in ~10% of the cases; the exclusion set extended by the first "
+        "(0) and / or the last edge / face id of the container (a set that is exactly {0} is labelled), empty-but-valid exclusion sets; "
+        "meshes with 0 (edge forest on an empty polyline), 1 and 2 elements (labelled elements=). MST weights: additionally all-zero, "
+        "integers around 2**40 and multiples of 2**-40 (exactly representable: only low bits tell the edges apart; integer-valued caller "
+        "weights are compared with tolerance 0), dicts as OrderedDict / defaultdict / a user subclass of dict, dict keys as numpy "
+        "integers, integer-typed (sparse / dense) weight attributes. Size regime (about two cases per sub-check and quick run, selected "
+        "by a hash of the generated case, stored compactly): triangle strips with 65538 / 100002 faces (face trees and forests, vertex "
+        "trees), Kuhn tet strips with 65538 cells (cell trees and forests), open paths of 100003 vertices; in edge_tree_deep one case in "
+        "four is an MST over 65597 / 100005 edges (weights one / length / formula dict, avoid_boundary off); the first example of the deep "
+        "sub-checks (identical in every shard) is a cheap 259-vertex path; "
+        "polylines with more than 256 connected components. Warm-up additionally queries border flags, edge ids and dual adjacencies and "
+        "stores barycenters. Histories computing the SAME tree / forest object twice (before or after its tables are read) are "
+        "judged since finding F-C10-2 was fixed in /repo (constant RECOMPUTE_ORACLE).")
 ASSUMPTIONS = ["meshes are what the data model represents (simple 1-skeleton, manifold surfaces, conforming tet meshes); "
                "exclusion sets contain valid edge / face indices; dict weights give a finite float for every edge",
-               "a volume mesh's boundary edges are the edges of its boundary faces (VolumeMesh.is_edge_on_border)"]
+               "a volume mesh's boundary edges are the edges of its boundary faces (VolumeMesh.is_edge_on_border)",
+               "exclusion sets are sets (set / frozenset) as documented - lists, generators and other iterables are not generated; "
+               "0 / 1 and numpy.bool_ are acceptable spellings of a documented bool flag; a dict subclass is a dict; numpy integer keys "
+               "address the same dict entries as Python ints",
+               "the compact huge strips are valid meshes (validated at a small size in self_test, not per case)"]
 
 MAX_HOPS_BALL = 3
+# Histories in which the SAME tree / forest object is computed twice (tree()() or compute() again after its tables were read).
+# On the unchanged library every compute() appends to the tables of the previous run (children and edges doubled, a forest holds
+# every tree twice), see scratch/fixes/C10-r6-recompute-appends.diff; the oracle stays off until that is repaired (or recorded as
+# a known finding), because it would fire on about a third of all cases.  (C10_RECOMPUTE_ORACLE=1 ./check.py C10 quick switches it on.)
+RECOMPUTE_ORACLE = os.environ.get("C10_RECOMPUTE_ORACLE", "1") == "1"     # finding F-C10-2, fixed in /repo (d082539): on by default
 
 
 # ============================================================================================ generators
@@ -133,7 +159,14 @@ def volume_meshes(draw, max_cells=40):
 @st.composite
 def big_meshes(draw):
     """size regime: a few meshes with more than 1000 vertices / faces / 380 cells (no internal threshold is known; this guards one)"""
-    k = draw(st.sampled_from(["surface", "surface_tri", "polyline", "volume"]))
+    k = draw(st.sampled_from(["surface", "surface_tri", "polyline", "volume", "scatter"]))
+    if k == "scatter":
+        # several hundred connected components (isolated vertices and a few short chains): more than 2**8 trees in a forest
+        n = draw(st.integers(300, 640))
+        rnd = random.Random(draw(st.integers(0, 10 ** 6)))
+        E = [[i, i + 1] for i in range(n - 1) if rnd.random() < 0.12]
+        V = [[float(i % 25), float(i // 25), 0.0] for i in range(n)]
+        return {"kind": "polyline", "V": V, "E": E, "tags": ["base=scatter", "big"]}
     if k in ("surface", "surface_tri", "polyline"):
         nu, nv = draw(st.integers(30, 36)), draw(st.integers(31, 34))
         V, F = G.grid(nu, nv)
@@ -153,13 +186,122 @@ def big_meshes(draw):
     return {"kind": "volume", "V": [[float(x) for x in v] for v in V], "C": [list(map(int, c)) for c in C], "tags": ["base=bigkuhn", "big"]}
 
 
+def pick_mesh(small, kinds, pow2=False):
+    """small meshes, and sparsely (1/80 each): 'big' ones (> 1000 elements) and, if pow2, paths of 255..258 vertices"""
+    def choose(x):
+        # Hypothesis favours the ends of an integer range and small values: the drawn integer is scrambled first, so that the
+        # rare classes keep their stated frequencies
+        i = ((x * 2654435761 + 40503) % (2 ** 32)) % 1200
+        if 100 <= i < 115:
+            return big_meshes().filter(lambda m: m["kind"] in kinds)
+        if pow2 and 1000 <= i < 1015:
+            return pow2_paths()
+        return small
+    return st.integers(0, 2 ** 32 - 1).flatmap(choose)
+
+
 def any_mesh():
     small = st.one_of(polylines(), surface_meshes(), surface_meshes(), volume_meshes())
-    return st.integers(0, 59).flatmap(lambda i: big_meshes() if i == 59 else pow2_paths() if i == 58 else small)
+    return pick_mesh(small, ("polyline", "surface", "volume"), pow2=True)
 
 
 def with_big(small, kinds):
-    return st.integers(0, 59).flatmap(lambda i: big_meshes().filter(lambda m: m["kind"] in kinds) if i == 59 else small)
+    return pick_mesh(small, kinds)
+
+
+COMPACT_KINDS = ("path", "tristrip", "kuhnstrip")
+
+
+def is_compact(mc):
+    return mc.get("kind") in COMPACT_KINDS
+
+
+def compact_count(mc):
+    """number of vertices of a compact mesh case"""
+    k = mc["kind"]
+    return int(mc["n"]) if k == "path" else 2 * int(mc["k"]) if k == "tristrip" else 4 * (int(mc["k"]) + 1)
+
+
+HUGE_MESHES = {
+    # size regime beyond 2**16 and 10**5 elements on the path the tree walks, stored compactly: a triangle strip of 2k-2 faces / 2k
+    # vertices / 4k-3 edges, a Kuhn strip of 6k tets (10**5 cells would cost the harness's own reference tens of seconds)
+    "edge_tree": [("tristrip", 32770), ("tristrip", 32770), ("tristrip", 32770), ("tristrip", 50002)],      # 65540 / 100004 vertices
+    "edge_mst": [("tristrip", 16400), ("tristrip", 16400), ("tristrip", 25002)],       # 65597 / 100005 edges (Kruskal walks edges)
+    "face": [("tristrip", 32770), ("tristrip", 32770), ("tristrip", 32770), ("tristrip", 50002)],           # 65538 / 100002 faces
+    "cell": [("kuhnstrip", 10923)],                                                    # 65538 cells
+}
+HUGE_SLOT = 700
+_HUGE_SEEN = set()
+
+
+def case_hash(c):
+    """a well-mixed hash of the whole case (a CRC is linear: cases that differ in one digit would get correlated values)"""
+    return int.from_bytes(hashlib.blake2b(json.dumps(c, sort_keys=True, default=str).encode(), digest_size=8).digest(), "big")
+
+
+def rnd_root(rnd, n):
+    k = rnd.randrange(10)
+    return None if k <= 1 else 0 if k == 2 else n - 1 if k == 3 else rnd.randrange(n)
+
+
+def rnd_exclusion(rnd, n, links):
+    """a small exclusion set on a huge mesh: none / empty / 1-3 random carriers / the boundary of a hop ball"""
+    mode = rnd.choice(["none", "sparse", "cut"])
+    if mode == "none":
+        return mode, (None if rnd.randrange(3) else [])
+    if mode == "sparse":
+        return mode, [list(links[rnd.randrange(len(links))][2]) for _ in range(rnd.randint(1, 3))]
+    seed = rnd.randrange(n)
+    hops = R.bfs_hops(n, links, seed)
+    r = rnd.randint(0, MAX_HOPS_BALL)
+    ball = set(v for v in range(n) if hops[v] is not None and hops[v] <= r)
+    return mode, [list(c) for c in sorted(set(c for a, b, c in links if (a in ball) != (b in ball)))]
+
+
+def hugeify(c, sub, per_1200, force=False):
+    """Turns about per_1200 / 1200 of the generated cases into size-regime cases: the mesh is replaced by a compact huge one and the
+    fields that depend on the mesh (roots, exclusion set, weights) are redrawn from a generator seeded by a hash of the whole
+    case.  Selecting by the hash (not by a drawn value) keeps the class at its stated frequency whatever values Hypothesis
+    favours, and a case derived from a huge one by copying most of its draws is not huge again (no bursts of expensive cases)."""
+    h = case_hash(c)
+    if not force:
+        if not HUGE_SLOT <= h % 1200 < HUGE_SLOT + per_1200 or h in _HUGE_SEEN:
+            return c                      # (a case generated a second time in this process stays small: no expensive duplicates)
+        _HUGE_SEEN.add(h)
+    rnd = random.Random(h)
+    what = c.get("what", sub)
+    kind, k = rnd.choice(HUGE_MESHES[{"edge": "edge_tree"}.get(what, what)])
+    mc = {"kind": kind, "k": k, "tags": ["base=" + kind, "huge"]}
+    c = dict(c)
+    c["mesh"] = mc
+    c["recycle"], c["copies"] = 0, False
+    mod = Model.of(mc)
+    elements = {"edge_tree": "vertex", "edge_mst": "vertex", "face": "face", "cell": "cell"}[{"edge": "edge_tree"}.get(what, what)]
+    n, links = mod.links(elements)
+    if "root" in c:
+        c["root"] = rnd_root(rnd, n)
+        c["root2"] = rnd_root(rnd, n) if rnd.randrange(3) == 0 else None
+    if "twice" in c:
+        c["twice"] = False
+    if sub == "edge_tree":
+        c["avoid_mode"], c["avoid"] = rnd_exclusion(rnd, n, links)
+    elif sub == "edge_mst":
+        wm = rnd.choice(["one", "one", "length", "dict"])
+        c["avoid_boundary"] = False          # (all 4k-3 edges of the strip are admissible: Kruskal walks more than 2**16 edges)
+        c.update({"weights_mode": wm, "weights": None, "style": "-", "attr_default": None, "attr_type": "float", "scale": 1.0, "aniso": None,
+                  "offset": 0.0, "int_coords": False, "length_attr": rnd.choice(["none", "none", "fresh"])})
+        for f in ("V2", "length_vals", "wformula"):
+            c.pop(f, None)
+        if wm == "dict":
+            # weights by formula (the case stays small): w(u, v) = (a*u + b*v) mod m, small integers with many ties and zeros
+            c["wformula"] = [rnd.randint(1, 9), rnd.randint(1, 9), rnd.choice([2, 3, 7, 11])]
+            c["style"] = "formula"
+            c["val_type"] = rnd.choice(["float", "int", "float64", "uint8"])
+            c["dict_kind"] = rnd.choice(["dict", "dict", "OrderedDict", "defaultdict", "subclass"])
+            c["dict_keys_np"] = rnd.randrange(4) == 0
+    elif "forbidden" in c and what in ("face", "cell") and (sub != "forests" or what == "face"):
+        c["mode"], c["forbidden"] = rnd_exclusion(rnd, n, links)
+    return c
 
 
 def path_id(n, stride, pos):
@@ -167,17 +309,45 @@ def path_id(n, stride, pos):
     return (pos * stride) % n
 
 
+_EXPANDED = {}
+
+
+def case_key(mc):
+    return (mc["kind"], int(mc.get("n", 0)), int(mc.get("stride", 1)), int(mc.get("k", 0)), tuple(mc.get("tags", [])))
+
+
 def expand_mesh(mc):
-    """{"kind": "path", "n", "stride"} -> the polyline it stands for (kept compact in the case because n can exceed 65536)"""
-    if mc.get("kind") != "path":
+    """{"kind": "path", "n", "stride"} / {"kind": "tristrip", "k"} / {"kind": "kuhnstrip", "k"} -> the polyline / surface / volume it
+    stands for (kept compact in the case because the element counts exceed 65536); the last expansion is kept"""
+    if not is_compact(mc):
         return mc
-    n, s = int(mc["n"]), int(mc.get("stride", 1))
-    assert math.gcd(n, s) == 1
-    V = [None] * n
-    for pos in range(n):
-        V[path_id(n, s, pos)] = [0.5 * pos, float(pos % 3), 0.0]
-    E = [[path_id(n, s, pos), path_id(n, s, pos + 1)] for pos in range(n - 1)]
-    return {"kind": "polyline", "V": V, "E": E, "tags": list(mc.get("tags", []))}
+    ck = case_key(mc)
+    if ck in _EXPANDED:
+        return _EXPANDED[ck]
+    tags = list(mc.get("tags", []))
+    if mc["kind"] == "path":
+        n, s = int(mc["n"]), int(mc.get("stride", 1))
+        assert math.gcd(n, s) == 1
+        V = [None] * n
+        for pos in range(n):
+            V[path_id(n, s, pos)] = [0.5 * pos, float(pos % 3), 0.0]
+        E = [[path_id(n, s, pos), path_id(n, s, pos + 1)] for pos in range(n - 1)]
+        out = {"kind": "polyline", "V": V, "E": E, "tags": tags}
+    elif mc["kind"] == "tristrip":
+        k = int(mc["k"])
+        V = [[float(i // 2), float(i % 2), 0.0] for i in range(2 * k)]
+        F = []
+        for i in range(k - 1):
+            a, b, c, d = 2 * i, 2 * i + 1, 2 * i + 2, 2 * i + 3
+            F += [[a, c, b], [b, c, d]]
+        out = {"kind": "surface", "V": V, "F": F, "tags": tags, "trusted": True}
+    else:
+        V, C = T.kuhn(1, 1, int(mc["k"]))
+        C = T.orient_all(V, C, True)
+        out = {"kind": "volume", "V": [[float(x) for x in v] for v in V], "C": [list(map(int, c)) for c in C], "tags": tags, "trusted": True}
+    _EXPANDED.clear()
+    _EXPANDED[ck] = out
+    return out
 
 
 @st.composite
@@ -191,18 +361,35 @@ def pow2_paths(draw):
 @st.composite
 def deep_paths(draw):
     """open paths whose hop depth from an end point crosses 2**15 or 2**16"""
-    n = draw(st.sampled_from([32768, 32769, 32770, 32771, 32775, 33001, 32768, 32769, 32770, 32767, 32766, 65537]))
+    # (the first entry is what Hypothesis generates first in EVERY shard of a run - the simplest example -, so it is a cheap one:
+    # a size-regime case evaluated once per shard would be the same expensive case eight times over)
+    n = draw(st.sampled_from([259, 32768, 32769, 32770, 32771, 32775, 33001, 32768, 32769, 32770, 32767, 32766, 65537, 100003]))
     stride = draw(st.sampled_from([1, 1, 7, 10007]))
     while math.gcd(n, stride) != 1:
         stride += 1
-    return {"kind": "path", "n": n, "stride": stride, "tags": ["base=deep-path", "deep>=2^%d" % (15 if n < 60000 else 16)]}
+    return {"kind": "path", "n": n, "stride": stride, "tags": ["base=deep-path", "deep>=" + ("2^8" if n < 1000 else "2^15" if n < 60000 else "2^16" if n < 100000 else "1e5")]}
 
 
 class Model:
     """Reference adjacency of a realised mesh case, from the raw lists only."""
 
+    _last = {}
+
+    @classmethod
+    def of(cls, mesh_case):
+        """the model of a mesh case; the model of the last compact (huge) case is kept (it is built once by the strategy and once
+        by the sub-check, and costs seconds)"""
+        if not is_compact(mesh_case):
+            return cls(mesh_case)
+        ck = case_key(mesh_case)
+        if ck not in cls._last:
+            cls._last.clear()
+            cls._last[ck] = cls(mesh_case)
+        return copy.copy(cls._last[ck])          # shallow: callers may rebind .V, never edit the tables
+
     def __init__(self, mesh_case):
         mesh_case = expand_mesh(mesh_case)
+        trusted = bool(mesh_case.get("trusted"))  # compact strips: validated once at a small size in self_test()
         self.kind = mesh_case["kind"]
         self.V = mesh_case["V"]
         self.nV = len(self.V)
@@ -215,7 +402,7 @@ class Model:
             self.edge_keys = sorted(set(key(e) for e in mesh_case["E"]))
         elif self.kind == "surface":
             ref = SurfRef(self.nV, mesh_case["F"])
-            err = ref.validate()
+            err = None if trusted else ref.validate()
             if err is not None:
                 raise AssertionError("invalid generated surface: " + err)
             self.edge_keys = sorted(ref.uedges)
@@ -225,9 +412,28 @@ class Model:
                 f1, f2 = ref.direct_face(a, b), ref.direct_face(b, a)
                 if f1 is not None and f2 is not None and f1 != f2:
                     self.face_links.append((f1, f2, (a, b)))
+        elif trusted:
+            # huge tet strips: the same tables as below, computed in one pass over the sorted cells (TetRef also builds incidence
+            # tables this module never uses; the fast route is compared with it at a small size in self_test)
+            self.nC = len(mesh_case["C"])
+            ek, f2c = set(), {}
+            for ci, cell in enumerate(mesh_case["C"]):
+                a, b, c, d = sorted(cell)
+                ek.update(((a, b), (a, c), (a, d), (b, c), (b, d), (c, d)))
+                for fk in ((a, b, c), (a, b, d), (a, c, d), (b, c, d)):
+                    f2c.setdefault(fk, []).append(ci)
+            self.edge_keys = sorted(ek)
+            self.face_keys = set(f2c)
+            for fk in sorted(f2c):
+                cs = f2c[fk]
+                if len(cs) == 2:
+                    self.cell_links.append((cs[0], cs[1], fk))
+                else:
+                    a, b, c = fk
+                    self.border_edges.update(((a, b), (a, c), (b, c)))
         else:
             ref = TetRef(self.nV, mesh_case["C"])
-            err = ref.validate()
+            err = None if trusted else ref.validate()
             if err is not None:
                 raise AssertionError("invalid generated tet mesh: " + err)
             self.edge_keys = sorted(ref.ekeys)
@@ -252,18 +458,18 @@ class Model:
         return math.sqrt(sum((float(x) - float(y)) ** 2 for x, y in zip(self.V[a], self.V[b])))
 
 
-def draw_exclusion(draw, n, links):
-    """returns (mode, list of carrier keys). links: (a, b, carrier)"""
+def draw_exclusion(draw, n, links, huge=False):
+    """returns (mode, list of carrier keys). links: (a, b, carrier); huge: only small exclusion sets (the case stays small)"""
     carriers = sorted(set(c for _, _, c in links))
     if not carriers:
         return "none", None if draw(st.booleans()) else []
-    mode = draw(st.sampled_from(["none", "none", "sparse", "dense", "cut", "cut", "all"]))
+    mode = draw(st.sampled_from(["none", "sparse", "cut"] if huge else ["none", "none", "sparse", "dense", "cut", "cut", "all"]))
     if mode == "none":
-        return mode, (None if draw(st.integers(0, 3)) else [])
+        return mode, (None if draw(st.integers(0, 2)) else [])          # [] = an empty (falsy) but valid exclusion set
     if mode == "all":
         return mode, [list(c) for c in carriers]
     if mode in ("sparse", "dense"):
-        k = draw(st.integers(1, max(1, len(carriers) // 6))) if mode == "sparse" else draw(st.integers(len(carriers) // 3, len(carriers)))
+        k = draw(st.integers(1, 3 if huge else max(1, len(carriers) // 6))) if mode == "sparse" else draw(st.integers(len(carriers) // 3, len(carriers)))
         idx = draw(st.lists(st.integers(0, len(carriers) - 1), min_size=k, max_size=k, unique=True)) if k <= len(carriers) else list(range(len(carriers)))
         return mode, [list(carriers[i]) for i in sorted(idx)]
     # cut: a hop ball around a seed element against the rest (maybe leaving a few crossing links to keep it connected)
@@ -280,28 +486,44 @@ def draw_exclusion(draw, n, links):
 
 
 def draw_root(draw, n):
-    if draw(st.integers(0, 4)) == 0:
+    """None (random root) 1/5; element 0 and the LAST element 1/10 each (special ids); otherwise any element"""
+    k = draw(st.integers(0, 9))
+    if k <= 1:
         return None
+    if k == 2:
+        return 0
+    if k == 3:
+        return n - 1
     return draw(st.integers(0, n - 1))
 
 
 def draw_history(draw, n):
     """fields shared by the tree sub-checks: a second tree on the same mesh object, numpy-typed roots, warm-up queries"""
-    h = {"root2": draw(st.integers(0, n - 1)) if draw(st.integers(0, 2)) > 0 else None,
-         "root_np": draw(st.integers(0, 3)) == 0, "warm": draw(st.integers(0, 2)) == 0}
+    k = draw(st.integers(0, 8))
+    r2 = None if k <= 2 else 0 if k == 3 else n - 1 if k == 4 else draw(st.integers(0, n - 1))
+    h = {"root2": r2, "root_np": draw(st.integers(0, 3)) == 0, "warm": draw(st.integers(0, 2)) == 0}
     h.update(draw_forms(draw))
     return h
 
 
+CALL_STYLES = ["legacy", "positional", "keyword", "minimal"]
+
+
 def draw_forms(draw):
-    """argument / container forms and library-wide switches"""
+    """argument / container forms, spelling of the calls, call histories on one object and library-wide switches"""
     return {"idx": draw(st.sampled_from(["list", "list", "int64", "int32", "int16", "uint8"])),
             "np_int": draw(st.sampled_from(["int64", "int64", "int32", "uint8", "uint16"])),
             "ids_np": draw(st.integers(0, 3)) == 0, "frozen": draw(st.integers(0, 3)) == 0,
             "explicit": draw(st.integers(0, 4)) == 0, "dup_warn": draw(st.booleans()), "bad_call": draw(st.integers(0, 2)) == 0,
             "recycle": draw(st.sampled_from([0, 0, 0, 0, 2, 3])), "recycle_seed": draw(st.integers(0, 1000)),
             "mutate_arg": draw(st.integers(0, 2)) == 0, "mutate_pick": draw(st.integers(0, 10 ** 6)),
-            "copies": draw(st.integers(0, 3)) == 0}
+            "copies": draw(st.integers(0, 3)) == 0,
+            # how the caller spells the constructor call / the boolean flag / the run, which special ids join the exclusion set,
+            # whether the same tree / forest object is computed again
+            "call": draw(st.sampled_from(CALL_STYLES)), "flag": draw(st.sampled_from(["bool", "bool", "np_bool", "int"])),
+            "run": draw(st.sampled_from(["call", "call", "compute"])),
+            "excl_extra": draw(st.sampled_from([None, None, None, None, "first", "first", "last", "first+last"])),
+            "recompute": draw(st.sampled_from(["no", "no", "no", "before-read", "after-read"]))}
 
 
 def scaled(V, s):
@@ -311,17 +533,17 @@ def scaled(V, s):
 @st.composite
 def edge_tree_case(draw):
     mc = draw(any_mesh())
-    mod = Model(mc)
+    mod = Model.of(mc)
     n, links = mod.links("vertex")
     mode, avoid = draw_exclusion(draw, n, links)
     ab = draw(st.booleans())
-    if mc["kind"] == "surface" and draw(st.integers(0, 3)) == 0:
+    if mod.kind == "surface" and draw(st.integers(0, 3)) == 0:
         mode, avoid, ab = "none", None, True           # border avoidance alone (no avoid_edges argument) on a surface
     c = {"mesh": mc, "root": draw_root(draw, n), "avoid_boundary": ab,
          "avoid": avoid, "avoid_mode": mode, "sort": draw(st.booleans())}
     c.update(draw_history(draw, n))
     c["avoid_boundary2"] = draw(st.booleans())
-    return c
+    return hugeify(c, "edge_tree", 2)
 
 
 @st.composite
@@ -343,32 +565,58 @@ def deep_edge_tree_case(draw):
     return c
 
 
+def deep_vertex_tree_case():
+    """size regime of the vertex trees: a breadth-first tree on a very long path, or (one in four) a minimal spanning tree on a huge
+    triangle strip.  Selector 0 comes first: the simplest example, generated first in every shard, is the cheap short path."""
+    return st.sampled_from([0, 0, 0, 1]).flatmap(lambda k: deep_edge_tree_case() if k == 0 else mst_case().map(lambda c: hugeify(c, "edge_mst", 0, force=True)))
+
+
+def fn_deep_vertex_tree(case, ctx):
+    return fn_mst(case, ctx) if "weights_mode" in case else fn_edge_tree(case, ctx)
+
+
 WEIGHT_MODES = ["one", "length", "length", "dict", "dict", "attr", "attr", "attr_dense"]
+
+
+WEIGHT_STYLES = ["smallint", "smallint", "float", "equal", "signed", "zeroes", "zeroes", "allzero", "huge", "tiny"]
+
+
+def weight_values(style):
+    """huge / tiny: integers around 2**40 and multiples of 2**-40 (exact floats): only the low bits tell the edges apart"""
+    return {"smallint": st.integers(0, 3).map(float), "float": st.floats(0, 10).map(lambda x: float(round(x, 5))),
+            "equal": st.just(2.5), "signed": st.integers(-3, 3).map(float),
+            "zeroes": st.sampled_from([0.0, 0.0, 1.0]), "allzero": st.just(0.0),
+            "huge": st.integers(0, 3).map(lambda k: float(2 ** 40 + k)), "tiny": st.integers(0, 3).map(lambda k: k * 2.0 ** -40)}[style]
 
 
 @st.composite
 def mst_case(draw):
     mc = draw(any_mesh())
-    mod = Model(mc)
+    mod = Model.of(mc)
     n = mod.nV
     wm = draw(st.sampled_from(WEIGHT_MODES))
     weights = None
     style = "-"
+    c = {}
     if wm in ("dict", "attr", "attr_dense"):
-        style = draw(st.sampled_from(["smallint", "smallint", "float", "equal", "signed", "zeroes"]))
-        vals = {"smallint": st.integers(0, 3).map(float), "float": st.floats(0, 10).map(lambda x: float(round(x, 5))),
-                "equal": st.just(2.5), "signed": st.integers(-3, 3).map(float),
-                "zeroes": st.sampled_from([0.0, 0.0, 1.0])}[style]
+        style = draw(st.sampled_from(WEIGHT_STYLES))
+        vals = weight_values(style)
         weights = []
         for e in mod.edge_keys:
             if wm in ("attr", "attr_dense") and draw(st.integers(0, 3)) == 0:
                 continue                                    # left unwritten: the attribute reads its own default value there
             weights.append([e[0], e[1], draw(vals)])
-    c = {"mesh": mc, "root": draw_root(draw, n), "avoid_boundary": draw(st.integers(0, 2)) == 0,
-         "weights_mode": wm, "weights": weights, "style": style, "sort": draw(st.booleans())}
+    c.update({"mesh": mc, "root": draw_root(draw, n), "avoid_boundary": draw(st.integers(0, 2)) == 0,
+              "weights_mode": wm, "weights": weights, "style": style, "sort": draw(st.booleans())})
     # default value of the weight attribute (None = the type's default 0.0); unwritten edges weigh this much
     c["attr_default"] = draw(st.sampled_from([None, None, 0.0, 1.5, 2.0, 7.0, -1.0, 100.0])) if wm in ("attr", "attr_dense") else None
     c["val_type"] = draw(st.sampled_from(["float", "float", "int", "float32", "float64", "uint8"])) if wm == "dict" else "float"
+    # the dict as an OrderedDict / defaultdict / user subclass of dict; keyed by numpy integers (they hash like ints)
+    c["dict_kind"] = draw(st.sampled_from(["dict", "dict", "dict", "OrderedDict", "defaultdict", "subclass"])) if wm == "dict" else "dict"
+    c["dict_keys_np"] = wm == "dict" and draw(st.integers(0, 3)) == 0
+    # an integer-typed weight attribute when every weight (and the default) is an integer
+    ints = wm in ("attr", "attr_dense") and all(float(x) == int(x) for _, _, x in weights) and (c["attr_default"] is None or float(c["attr_default"]) == int(c["attr_default"]))
+    c["attr_type"] = "int" if ints and draw(st.integers(0, 2)) == 0 else "float"
     c.update(draw_history(draw, n))
     c["mode2"] = draw(st.sampled_from(["same", "same", "one", "length"]))
     c["dict_rev"] = draw(st.booleans())
@@ -397,13 +645,13 @@ def mst_case(draw):
         rnd = np.random.RandomState(draw(st.integers(0, 10 ** 6)))
         amp = draw(st.sampled_from([0.3, 1.0, 3.0])) * sc
         c["V2"] = (np.array(mc["V"], dtype=float).reshape(-1, 3) + rnd.uniform(-amp, amp, (len(mc["V"]), 3))).tolist()
-    return c
+    return c                 # (size regime: part of the edge_tree_deep sub-check, which has a long watchdog)
 
 
 @st.composite
 def face_tree_case(draw):
     mc = draw(with_big(surface_meshes(), ("surface",)))
-    mod = Model(mc)
+    mod = Model.of(mc)
     n, links = mod.links("face")
     mode, forb = draw_exclusion(draw, n, links)
     if forb is not None and draw(st.booleans()):
@@ -420,7 +668,7 @@ def face_tree_case(draw):
         mode = mode + "+double"
     c = {"mesh": mc, "root": draw_root(draw, n), "forbidden": forb, "mode": mode, "sort": draw(st.booleans())}
     c.update(draw_history(draw, n))
-    return c
+    return hugeify(c, "face", 3)
 
 
 def double_adjacencies(links):
@@ -434,7 +682,7 @@ def double_adjacencies(links):
 @st.composite
 def cell_tree_case(draw):
     mc = draw(with_big(volume_meshes(), ("volume",)))
-    mod = Model(mc)
+    mod = Model.of(mc)
     n, links = mod.links("cell")
     mode, forb = draw_exclusion(draw, n, links)
     if forb is not None and draw(st.booleans()):
@@ -442,32 +690,36 @@ def cell_tree_case(draw):
         forb = forb + [list(f) for f in bf[:draw(st.integers(0, 3))]]
     c = {"mesh": mc, "root": draw_root(draw, n), "forbidden": forb, "mode": mode, "sort": draw(st.booleans())}
     c.update(draw_history(draw, n))
-    return c
+    return hugeify(c, "cell", 3)
+
+
+EMPTY_POLYLINE = {"kind": "polyline", "V": [], "E": [], "tags": ["base=empty-mesh"]}
 
 
 @st.composite
 def forest_case(draw):
     what = draw(st.sampled_from(["edge", "edge", "face", "face", "cell"]))
     if what == "edge":
-        mc = draw(any_mesh())
+        # (huge vertex graphs: the forests_deep sub-check); sparsely a mesh without any element
+        mc = copy.deepcopy(EMPTY_POLYLINE) if draw(st.integers(0, 39)) == 0 else draw(any_mesh())
         c = {"what": what, "mesh": mc, "forbidden": None, "mode": "none", "sort": draw(st.booleans()),
              "twice": draw(st.booleans()), "warm": draw(st.integers(0, 2)) == 0}
         c.update(draw_forms(draw))
         return c
     if what == "face":
         mc = draw(surface_meshes())
-        mod = Model(mc)
+        mod = Model.of(mc)
         n, links = mod.links("face")
         mode, forb = draw_exclusion(draw, n, links)
         c = {"what": what, "mesh": mc, "forbidden": forb, "mode": mode, "sort": draw(st.booleans()),
              "twice": draw(st.booleans()), "warm": draw(st.integers(0, 2)) == 0}
         c.update(draw_forms(draw))
-        return c
+        return hugeify(c, "forests", 4)
     mc = draw(volume_meshes())
     c = {"what": what, "mesh": mc, "forbidden": None, "mode": "none", "sort": draw(st.booleans()),
          "twice": draw(st.booleans()), "warm": draw(st.integers(0, 2)) == 0}
     c.update(draw_forms(draw))
-    return c
+    return hugeify(c, "forests", 4)
 
 
 @st.composite
@@ -558,7 +810,7 @@ def build(case, ctx, exercise=None):
     import mouette as M
     M.config.sort_neighborhoods = bool(case.get("sort", True))
     mc = expand_mesh(case["mesh"])
-    mod = Model(mc)
+    mod = Model.of(case["mesh"])
     M.config.display_duplicate_attribute_warning = bool(case.get("dup_warn", False))
     ctx.label("dup_warn=" + str(bool(case.get("dup_warn", False))))
     rounds = int(case.get("recycle", 0)) if (exercise is not None and len(mc["V"]) <= 3000) else 0
@@ -603,11 +855,27 @@ def build(case, ctx, exercise=None):
             m.connectivity.cell_to_face(0)
         if case.get("length_attr", "none") == "none":
             M.attributes.edge_length(m)
+        if len(m.edges) and case.get("call") is not None:
+            # (cases of the current format only) per-element queries other callers make: border flags of one edge and its end
+            # points, the edge index, dual adjacencies; barycenters stored on the mesh
+            a, b = (int(x) for x in m.edges[len(m.edges) - 1])
+            try:
+                m.connectivity.edge_id(a, b)
+                m.connectivity.vertex_to_edges(a)
+                if mc["kind"] != "polyline":
+                    m.is_edge_on_border(a, b), m.is_vertex_on_border(a), m.is_vertex_on_border(b)
+                    if len(m.faces):
+                        m.connectivity.face_to_faces(0)
+                        M.attributes.face_barycenter(m)
+                if mc["kind"] == "volume":
+                    M.attributes.cell_barycenter(m)
+            except Exception:
+                pass                                   # history only: these queries are other properties' business
     for t in mc.get("tags", []):
-        if t.startswith(("base=", "comps=", "closed", "bordered", "union", "part=", "coords=", "big")):
+        if t.startswith(("base=", "comps=", "closed", "bordered", "union", "part=", "coords=", "big", "huge", "deep>=")):
             ctx.label(t)
     ctx.label("mesh=" + mc["kind"])
-    medges = [key(e) for e in m.edges]
+    medges = [(int(a), int(b)) if a < b else (int(b), int(a)) for a, b in m.edges]
     eid = {e: i for i, e in enumerate(medges)}
     ok = ctx.check(len(eid) == len(medges) and set(medges) == set(mod.edge_keys), "mesh:edges",
                    f"the mesh's edge container {medges[:12]}... is not the reference edge set ({len(mod.edge_keys)} edges)")
@@ -787,6 +1055,10 @@ def check_traverse_histories(ctx, tag, obj):
         out["after-break-BFS"] = (list(obj.traverse("BFS")), refB)
         out["lock-step"] = (list(zip(obj.traverse("BFS"), obj.traverse("DFS"))), list(zip(refB, refD)))
         out["lock-step-same-order"] = (list(zip(obj.traverse("BFS"), obj.traverse("BFS"))), list(zip(refB, refB)))
+        # the documented spellings of the order: left out (default "BFS"), by keyword
+        out["order-left-out"] = (list(obj.traverse()), refB)
+        out["order-by-keyword-DFS"] = (list(obj.traverse(order="DFS")), refD)
+        out["order-by-keyword-BFS"] = (list(obj.traverse(order="BFS")), refB)
         return out
     ok, out = ctx.call(tag + "traverse:histories", run)
     if not ok:
@@ -842,8 +1114,8 @@ def check_spanning_tree(ctx, tag, tree, n, adm_links, root_expected, bfs=True, o
         bad = [(v, depth[v], hops[v]) for v in reached if depth[v] != hops[v]]
         ctx.check(not bad, tag + "bfs-depth", f"root {root}: (element, depth in tree, minimum hop distance) = {bad[:5]}")
     if ok:
-        light = n > 20000                      # very long paths: one BFS traversal, no iterator histories (cost)
-        check_traverse(ctx, tag, tree, parent, root, reached, depth, ("BFS",) if light else orders)
+        light = n > 20000                      # huge meshes: no iterator histories (cost)
+        check_traverse(ctx, tag, tree, parent, root, reached, depth, orders)
         if not light:
             check_traverse_histories(ctx, tag, tree)
     return reached
@@ -858,12 +1130,20 @@ def admissible_edge_links(mod, case_avoid, avoid_boundary):
     return n, links, [(a, b, c) for a, b, c in links if c not in avoid], avoid
 
 
-def label_common(ctx, n, links, adm, root, excl_nonempty):
+def label_common(ctx, n, links, adm, root, excl_nonempty, what_root=True):
     pairs_all = [(a, b) for a, b, _ in links]
     ncomp = len(R.partition(n, pairs_all))
     ncomp_adm = len(R.partition(n, [(a, b) for a, b, _ in adm]))
     ctx.label("components=" + str(min(ncomp, 3)))
+    if ncomp >= 256:
+        ctx.label("components>=256")
+    ctx.label("elements=" + (str(n) if n <= 2 else "3+" if n <= 65536 else ">2^16" if n < 100000 else ">=1e5"))
     ctx.label("root=" + ("random" if root is None else "explicit"))
+    if root is not None and what_root:
+        if root == 0:
+            ctx.label("root=id0")
+        if root == n - 1:
+            ctx.label("root=last-id")
     ctx.label("exclusion-disconnects" if ncomp_adm > ncomp else "exclusion-harmless" if excl_nonempty else "no-exclusion")
     cyc = has_cycle(n, links)
     ctx.label("cycle" if cyc else "acyclic")
@@ -891,6 +1171,72 @@ def id_set(case, ids):
         return None
     items = [np.int64(i) for i in ids] if case.get("ids_np") else [int(i) for i in ids]
     return frozenset(items) if case.get("frozen") else set(items)
+
+
+def flag_value(case, b):
+    """a boolean option as the caller passes it: bool, numpy.bool_ or 0 / 1"""
+    f = case.get("flag", "bool")
+    return np.bool_(bool(b)) if f == "np_bool" else int(bool(b)) if f == "int" else bool(b)
+
+
+def is_default(v, d):
+    if d is None:
+        return v is None
+    if d is False:
+        return isinstance(v, (bool, np.bool_, int)) and not v
+    return isinstance(v, str) and v == d
+
+
+def spelled(case, ctx, cls, mesh, params, legacy_pos):
+    """cls(mesh, ...) spelled as the case asks.  params: [(documented name, value, documented default)] in the documented order
+    (after `mesh`).  positional: every parameter by position; keyword: every parameter (and the mesh) by its documented name;
+    minimal: parameters whose value is the documented default are left out, the others by keyword; legacy (cases stored by earlier
+    versions): the first `legacy_pos` parameters by position, the others by keyword."""
+    style = case.get("call", "legacy")
+    if style not in CALL_STYLES:
+        style = "legacy"
+    ctx.label("call=" + style)
+    if style == "positional":
+        return cls(mesh, *[v for _, v, _ in params])
+    if style == "keyword":
+        return cls(mesh=mesh, **{k: v for k, v, _ in params})
+    if style == "minimal":
+        return cls(mesh, **{k: v for k, v, d in params if not is_default(v, d)})
+    return cls(mesh, *[v for _, v, _ in params[:legacy_pos]], **{k: v for k, v, _ in params[legacy_pos:]})
+
+
+def runner_of(case, ctx, obj):
+    """how the caller runs a tree / forest: obj() (returns obj) or obj.compute() (returns None)"""
+    if case.get("run", "call") == "compute":
+        ctx.label("run=compute()")
+        return lambda: (obj.compute(), obj)[1]
+    ctx.label("run=__call__")
+    return obj
+
+
+def extra_ids(case, n_ids):
+    """special ids the case adds to the exclusion set: the first (0) and / or the last id of the container"""
+    x = case.get("excl_extra")
+    if not x or n_ids <= 0:
+        return []
+    return sorted(set(([0] if "first" in x else []) + ([n_ids - 1] if "last" in x else [])))
+
+
+def with_extra(case, ctx, keys, key_of):
+    """the excluded carrier keys of the case plus the keys of the special ids (resolved on the mesh: ids are the library's)"""
+    ids = extra_ids(case, len(key_of))
+    if not ids:
+        return keys
+    out = [list(k) for k in (keys or [])]
+    have = set(tuple(key(k)) for k in out)
+    for i in ids:
+        if tuple(key_of[i]) not in have:
+            out.append(list(key_of[i]))
+            have.add(tuple(key_of[i]))
+    ctx.label("exclusion-has-" + "+".join((["id0"] if 0 in ids else []) + (["last-id"] if len(key_of) - 1 in ids else [])))
+    if len(out) == 1 and ids == [0]:
+        ctx.label("exclusion-is-{0}")
+    return out
 
 
 def snapshot_tables(tree):
@@ -940,14 +1286,28 @@ def run_trees(ctx, tag, case, n, make, adm_fn, argset, what, all_ids):
             list(tree.traverse("BFS"))          # refused (or at most the root): must leave the tree usable
         except Exception:
             pass
-    ok, r = ctx.call(tag + "compute", tree)
+    run = runner_of(case, ctx, tree)
+    ok, r = ctx.call(tag + "compute", run)
     if not ok:
         return
     ctx.check(r is tree, tag + "call-returns-self", "tree() does not return the tree")
+    rec = case.get("recompute", "no") if RECOMPUTE_ORACLE else "no"
+    if rec == "before-read":
+        # the same tree object is computed a second time before anything is read from it
+        ctx.label("computed-twice-before-read")
+        ok, r = ctx.call(tag + "recompute", run)
+        if not ok:
+            return
     unchanged(tag)
     reached = check_spanning_tree(ctx, tag, tree, n, adm_fn(argset, False), case["root"], bfs=True)
     if reached is None:
         return
+    if rec == "after-read":
+        # ... or after its tables were read and traversed
+        ctx.label("computed-again-after-read")
+        ok, r = ctx.call(tag + "recompute", run)
+        if not ok or check_spanning_tree(ctx, tag + "recomputed:", tree, n, adm_fn(argset, False), case["root"], bfs=True) is None:
+            return
     if case.get("copies"):
         check_copies(ctx, tag, tree, n)
     r2 = case.get("root2")
@@ -970,7 +1330,7 @@ def run_trees(ctx, tag, case, n, make, adm_fn, argset, what, all_ids):
     ok, tree2 = ctx.call(t2 + "construct", lambda: make(np_root(case, r2), True))
     if not ok:
         return
-    ok, r = ctx.call(t2 + "compute", tree2)
+    ok, r = ctx.call(t2 + "compute", runner_of(case, ctx, tree2))
     if not ok:
         return
     unchanged(t2)
@@ -991,21 +1351,27 @@ def fn_edge_tree(case, ctx):
                                                                    trees.EdgeSpanningTree(pm, 0, avoid_boundary=True)()))
     if not ok:
         return
-    n, links, adm, avoid = admissible_edge_links(mod, case["avoid"], case["avoid_boundary"])
-    ctx.label("avoid=" + case["avoid_mode"], "avoid_boundary=" + str(bool(case["avoid_boundary"])))
-    label_common(ctx, n, links, adm, case["root"], bool(avoid & set(c for _, _, c in links)))
-    avoid_ids = id_set(case, None if case["avoid"] is None else [eid[key(e)] for e in case["avoid"]])
-    if mod.kind == "surface" and case["avoid_boundary"] and case["avoid"] is None and not case.get("sort", True):
-        ctx.label("avoid-boundary-only+unsorted-fans")
     key_of = {i: e for e, i in eid.items()}
+    avoid_keys = with_extra(case, ctx, case["avoid"], key_of)
+    n, links, adm, avoid = admissible_edge_links(mod, avoid_keys, case["avoid_boundary"])
+    ctx.label("avoid=" + case["avoid_mode"], "avoid_boundary=" + str(bool(case["avoid_boundary"])))
+    if avoid_keys is not None and not avoid_keys:
+        ctx.label("avoid=empty-set")
+    label_common(ctx, n, links, adm, case["root"], bool(avoid & set(c for _, _, c in links)))
+    avoid_ids = id_set(case, None if avoid_keys is None else [eid[key(e)] for e in avoid_keys])
+    if mod.kind == "surface" and case["avoid_boundary"] and avoid_keys is None and not case.get("sort", True):
+        ctx.label("avoid-boundary-only+unsorted-fans")
     border = set(mod.border_edges) if mod.kind != "polyline" else set()
+    ctx.label("flag=" + case.get("flag", "bool"))
 
     def adm_fn(ids, second):
         excl = set(key_of[int(i)] for i in (ids or ()))
         if (ab2 if second else ab1):
             excl |= border
         return [(a, b, c) for a, b, c in links if c not in excl]
-    make = lambda root, second: trees.EdgeSpanningTree(m, root, avoid_boundary=(ab2 if second else ab1), avoid_edges=avoid_ids)
+    make = lambda root, second: spelled(case, ctx, trees.EdgeSpanningTree, m,
+                                        [("starting_vertex", root, None), ("avoid_boundary", flag_value(case, ab2 if second else ab1), False),
+                                         ("avoid_edges", avoid_ids, None)], 1)
     run_trees(ctx, "edge_tree:", case, n, make, adm_fn, avoid_ids, "avoid_edges", sorted(key_of))
 
 
@@ -1032,6 +1398,10 @@ def memory_cap(extra=2 << 30):
     finally:
         if resource is not None:
             resource.setrlimit(resource.RLIMIT_AS, (soft, hard))
+
+
+class WeightTable(dict):
+    """a caller's own subclass of dict (weights of the minimal spanning tree)"""
 
 
 def compute_capped(tree):
@@ -1076,6 +1446,11 @@ def check_mst(ctx, tag, tree, n, adm, w, wm, root_expected):
         total = math.fsum(w[key(e)] for e in edges)
         ref_total, ref_k, _ = R.kruskal(n, adm_w)
         tol = 1e-9 * math.fsum(abs(x) for x in vals)          # relative to the scale of the weights (no absolute floor)
+        if wm != "length" and all(float(x) == int(x) and abs(x) < 2 ** 50 for x in vals):
+            # integer weights (given by the caller, not measured): sums and comparisons are exact in floating point, a
+            # minimum-weight forest has exactly the reference weight
+            tol = 0.0
+            ctx.label("weights=exact-integers")
         ctx.check(abs(total - ref_total) <= tol, tag + "weight",
                   f"total weight of the returned forest {total!r} != minimum spanning forest weight {ref_total!r} (weights={wm}, {len(edges)} edges, "
                   f"difference {total - ref_total:.3e}, tolerance {tol:.1e})")
@@ -1096,7 +1471,8 @@ def check_mst(ctx, tag, tree, n, adm, w, wm, root_expected):
     depth = depths_from_parent(ctx, tag, parent, root, reached, n)
     if ok2:
         check_traverse(ctx, tag, tree, parent, root, reached, depth)
-        check_traverse_histories(ctx, tag, tree)
+        if n <= 20000:
+            check_traverse_histories(ctx, tag, tree)
     return True
 
 
@@ -1111,6 +1487,10 @@ def fn_mst(case, ctx):
     nE = len(mod.edge_keys)
     n, links, adm, avoid = admissible_edge_links(mod, None, case["avoid_boundary"])
     wm = case["weights_mode"]
+    case_weights = case["weights"]
+    if case.get("wformula"):
+        fa, fb, fm = (int(x) for x in case["wformula"])
+        case_weights = [[u, v, float((fa * u + fb * v) % fm)] for (u, v) in mod.edge_keys]
     ctx.label("weights=" + wm, "style=" + case["style"], "avoid_boundary=" + str(bool(case["avoid_boundary"])))
     sc = float(case.get("scale", 1.0))
     ctx.label("scale=%g" % sc)
@@ -1163,24 +1543,31 @@ def fn_mst(case, ctx):
                 return np.uint8(x)
             return x
         w = {e: (0.0 if dflt is None else float(dflt)) for e in mod.edge_keys}
-        for a, b, x in case["weights"]:
+        for a, b, x in case_weights:
             w[key(a, b)] = float(conv(x)) if wm == "dict" else float(x)
         if wm == "dict":
             ctx.label("dict-values=" + vt)
             order = list(reversed(mod.edge_keys)) if case.get("dict_rev") else list(mod.edge_keys)
-            cw = {tuple(key(a, b)): conv(x) for a, b, x in case["weights"]}
-            arg = {eid[e]: cw[e] for e in order}                # insertion order of the dict must not matter
-            ctx.label("dict-order=" + ("reversed" if case.get("dict_rev") else "sorted"))
+            cw = {tuple(key(a, b)): conv(x) for a, b, x in case_weights}
+            kt = np.int64 if case.get("dict_keys_np") else int
+            items = [(kt(eid[e]), cw[e]) for e in order]        # insertion order of the dict must not matter
+            dk = case.get("dict_kind", "dict")
+            arg = (collections.OrderedDict(items) if dk == "OrderedDict" else collections.defaultdict(float, items) if dk == "defaultdict"
+                   else WeightTable(items) if dk == "subclass" else dict(items))
+            ctx.label("dict-order=" + ("reversed" if case.get("dict_rev") else "sorted"), "dict-kind=" + dk,
+                      "dict-keys=" + ("numpy" if case.get("dict_keys_np") else "int"))
             arg_snapshot = lambda: dict(arg)
         else:
+            at = int if case.get("attr_type") == "int" else float
+            ctx.label("attr-type=" + at.__name__)
             if dflt is None:
-                arg = m.edges.create_attribute("c10_weight", float, dense=(wm == "attr_dense"))
+                arg = m.edges.create_attribute("c10_weight", at, dense=(wm == "attr_dense"))
             else:
-                arg = m.edges.create_attribute("c10_weight", float, dense=(wm == "attr_dense"), default_value=float(dflt))
-            wl = sorted(case["weights"], key=lambda t: eid[key(t[0], t[1])], reverse=bool(case.get("dict_rev")))
+                arg = m.edges.create_attribute("c10_weight", at, dense=(wm == "attr_dense"), default_value=at(dflt))
+            wl = sorted(case_weights, key=lambda t: eid[key(t[0], t[1])], reverse=bool(case.get("dict_rev")))
             for a, b, x in wl:                          # written in increasing or decreasing index order
-                arg[eid[key(a, b)]] = float(x)
-            unwritten = len(mod.edge_keys) - len(case["weights"])
+                arg[eid[key(a, b)]] = at(x)
+            unwritten = len(mod.edge_keys) - len(case_weights)
             ctx.label("attr-default=" + ("type-default" if dflt is None else "zero" if dflt == 0 else "non-zero")
                       + ("+unwritten" if unwritten else "+all-written"))
             arg_snapshot = lambda: [float(arg[e]) for e in range(nE)]
@@ -1197,15 +1584,30 @@ def fn_mst(case, ctx):
         ctx.check(now == coords_snap, t + "vertices-mutated", "vertex coordinates were modified by the tree")
 
     ab = bool(case["avoid_boundary"])
-    ok, tree = ctx.call("mst:construct", lambda: trees.EdgeMinimalSpanningTree(m, np_root(case, case["root"]), avoid_boundary=ab, weights=arg))
+    ctx.label("flag=" + case.get("flag", "bool"))
+    make = lambda root, wts: spelled(case, ctx, trees.EdgeMinimalSpanningTree, m,
+                                     [("starting_vertex", root, None), ("avoid_boundary", flag_value(case, ab), False), ("weights", wts, "length")], 1)
+    ok, tree = ctx.call("mst:construct", lambda: make(np_root(case, case["root"]), arg))
     if not ok:
         return
-    ok, r = ctx.call("mst:compute", compute_capped, tree)
+    run = runner_of(case, ctx, tree)
+    ok, r = ctx.call("mst:compute", compute_capped, run)
     if not ok:
         return
+    rec = case.get("recompute", "no") if RECOMPUTE_ORACLE else "no"
+    if rec == "before-read":
+        ctx.label("computed-twice-before-read")
+        ok, r = ctx.call("mst:recompute", compute_capped, run)
+        if not ok:
+            return
     untouched("mst:")
     if not check_mst(ctx, "mst:", tree, n, adm, w, wm, case["root"]):
         return
+    if rec == "after-read":
+        ctx.label("computed-again-after-read")
+        ok, r = ctx.call("mst:recompute", compute_capped, run)
+        if not ok or not check_mst(ctx, "mst:recomputed:", tree, n, adm, w, wm, case["root"]):
+            return
     if case.get("copies"):
         check_copies(ctx, "mst:", tree, n)
     r2 = case.get("root2")
@@ -1220,15 +1622,15 @@ def fn_mst(case, ctx):
         # the caller rewrites one weight in the same dict / attribute object before asking for another tree
         ek = mod.edge_keys[int(case.get("mutate_pick", 0)) % len(mod.edge_keys)]
         newv = float(w[ek]) + 10.0 if int(case.get("mutate_pick", 0)) % 2 else -5.0
-        arg[eid[ek]] = newv
+        arg[eid[ek]] = int(newv) if (wm != "dict" and case.get("attr_type") == "int") else newv
         w2 = dict(w); w2[ek] = newv
         arg_snap = arg_snapshot()
         ctx.label("argument-edited-in-place")
     trav1 = list(tree.traverse("BFS")), list(tree.traverse("DFS"))
-    ok, tree2 = ctx.call("mst:second:construct", lambda: trees.EdgeMinimalSpanningTree(m, np_root(case, r2), avoid_boundary=ab, weights=arg2))
+    ok, tree2 = ctx.call("mst:second:construct", lambda: make(np_root(case, r2), arg2))
     if not ok:
         return
-    ok, r = ctx.call("mst:second:compute", compute_capped, tree2)
+    ok, r = ctx.call("mst:second:compute", compute_capped, runner_of(case, ctx, tree2))
     if not ok:
         return
     untouched("mst:second:")
@@ -1246,19 +1648,24 @@ def fn_face_tree(case, ctx):
     if not ok:
         return
     n, links = mod.links("face")
-    forb = set(key(e) for e in (case["forbidden"] or []))
+    key_of = {i: e for e, i in eid.items()}
+    forb_keys = with_extra(case, ctx, case["forbidden"], key_of)
+    forb = set(key(e) for e in (forb_keys or []))
     adm = [(a, b, c) for a, b, c in links if c not in forb]
     ctx.label("forbidden=" + case["mode"])
+    if forb_keys is not None and not forb_keys:
+        ctx.label("forbidden=empty-set")
     label_common(ctx, n, links, adm, case["root"], bool(forb & set(c for _, _, c in links)))
-    forb_ids = id_set(case, None if case["forbidden"] is None else [eid[key(e)] for e in case["forbidden"]])
-    dbl = double_adjacencies(links)
+    forb_ids = id_set(case, None if forb_keys is None else [eid[key(e)] for e in forb_keys])
+    dbl = double_adjacencies(links) if n <= 20000 else {}
     if dbl:
         ctx.label("faces-sharing-two-edges")
         if any(0 < len([e for e in sh if e in forb]) < len(sh) for sh in dbl.values()):
             ctx.label("faces-sharing-two-edges:partly-forbidden")
-    make = lambda root, second: trees.FaceSpanningTree(m, root, forb_ids)
-    key_of = {i: e for e, i in eid.items()}
-    adm_fn = lambda ids, second: [(a, b, c) for a, b, c in links if c not in set(key_of[int(i)] for i in (ids or ()))]
+    make = lambda root, second: spelled(case, ctx, trees.FaceSpanningTree, m, [("starting_face", root, None), ("forbidden_edges", forb_ids, None)], 2)
+    def adm_fn(ids, second):
+        excl = set(key_of[int(i)] for i in (ids or ()))
+        return [(a, b, c) for a, b, c in links if c not in excl]
     run_trees(ctx, "face_tree:", case, n, make, adm_fn, forb_ids, "forbidden_edges", sorted(key_of))
 
 
@@ -1270,14 +1677,19 @@ def fn_cell_tree(case, ctx):
     if not ok:
         return
     n, links = mod.links("cell")
-    forb = set(key(f) for f in (case["forbidden"] or []))
+    key_of = {i: f for f, i in fid.items()}
+    forb_keys = with_extra(case, ctx, case["forbidden"], key_of)
+    forb = set(key(f) for f in (forb_keys or []))
     adm = [(a, b, c) for a, b, c in links if c not in forb]
     ctx.label("forbidden=" + case["mode"])
+    if forb_keys is not None and not forb_keys:
+        ctx.label("forbidden=empty-set")
     label_common(ctx, n, links, adm, case["root"], bool(forb & set(c for _, _, c in links)))
-    forb_ids = id_set(case, None if case["forbidden"] is None else [fid[key(f)] for f in case["forbidden"]])
-    make = lambda root, second: trees.CellSpanningTree(m, root, forb_ids)
-    key_of = {i: f for f, i in fid.items()}
-    adm_fn = lambda ids, second: [(a, b, c) for a, b, c in links if c not in set(key_of[int(i)] for i in (ids or ()))]
+    forb_ids = id_set(case, None if forb_keys is None else [fid[key(f)] for f in forb_keys])
+    make = lambda root, second: spelled(case, ctx, trees.CellSpanningTree, m, [("starting_cell", root, None), ("forbidden_faces", forb_ids, None)], 2)
+    def adm_fn(ids, second):
+        excl = set(key_of[int(i)] for i in (ids or ()))
+        return [(a, b, c) for a, b, c in links if c not in excl]
     run_trees(ctx, "cell_tree:", case, n, make, adm_fn, forb_ids, "forbidden_faces", sorted(key_of))
 
 
@@ -1294,24 +1706,28 @@ def fn_forest(case, ctx):
     if what == "edge":
         n, links = mod.links("vertex")
         adm = links
-        mk = lambda: trees.EdgeSpanningForest(m)
+        mk = lambda: spelled(case, ctx, trees.EdgeSpanningForest, m, [], 0)
         excl = False
     elif what == "face":
         n, links = mod.links("face")
-        forb = set(key(e) for e in (case["forbidden"] or []))
+        key_of = {i: e for e, i in eid.items()}
+        forb_keys = with_extra(case, ctx, case["forbidden"], key_of)
+        forb = set(key(e) for e in (forb_keys or []))
         adm = [(a, b, c) for a, b, c in links if c not in forb]
-        forb_ids = id_set(case, None if case["forbidden"] is None else [eid[key(e)] for e in case["forbidden"]])
-        mk = lambda: trees.FaceSpanningForest(m, forb_ids)
+        if forb_keys is not None and not forb_keys:
+            ctx.label("forbidden=empty-set")
+        forb_ids = id_set(case, None if forb_keys is None else [eid[key(e)] for e in forb_keys])
+        mk = lambda: spelled(case, ctx, trees.FaceSpanningForest, m, [("forbidden_edges", forb_ids, None)], 1)
         excl = bool(forb & set(c for _, _, c in links))
     else:
         n, links = mod.links("cell")
         adm = links
-        mk = lambda: trees.CellSpanningForest(m)
+        mk = lambda: spelled(case, ctx, trees.CellSpanningForest, m, [], 0)
         excl = False
-    label_common(ctx, n, links, adm, 0, excl)
+    label_common(ctx, n, links, adm, 0, excl, what_root=False)
     fset = forb_ids if what == "face" else None
     fsnap = None if fset is None else set(fset)
-    first = validate_forest(ctx, "forest:" + what + ":", mk, n, adm, fset, fsnap)
+    first = validate_forest(ctx, "forest:" + what + ":", mk, n, adm, fset, fsnap, case=case)
     if first is None or not case.get("twice"):
         return
     # several forest objects alive at the same time: a second one on the same mesh object (same exclusion-set object), then one on
@@ -1345,17 +1761,34 @@ def fn_forest(case, ctx):
         validate_forest(ctx, tag + "other:reinspected:", None, len(OTHER_V), other_links, None, None, forest=other)
 
 
-def validate_forest(ctx, tag, mk, n, adm, fset, fsnap, forest=None):
+def validate_forest(ctx, tag, mk, n, adm, fset, fsnap, forest=None, case=None):
     """build + compute + validate one forest (or re-inspect the already computed `forest`); returns it (None when validation
-    stopped early)"""
+    stopped early).  case: how the forest is run (the first forest of a case)"""
+    rec = "no"
     if forest is None:
         ok, forest = ctx.call(tag + "construct", mk)
         if not ok:
             return
-        ok, r = ctx.call(tag + "compute", forest)
+        run = runner_of(case, ctx, forest) if case is not None else forest
+        ok, r = ctx.call(tag + "compute", run)
         if not ok:
             return
         ctx.check(r is forest, tag + "call-returns-self", "forest() does not return the forest")
+        rec = case.get("recompute", "no") if (RECOMPUTE_ORACLE and case is not None) else "no"
+        if rec == "before-read":
+            ctx.label("computed-twice-before-read")
+            ok, r = ctx.call(tag + "recompute", run)
+            if not ok:
+                return
+        elif rec == "after-read":
+            # the forest is validated, computed again, and validated again (below)
+            ctx.label("computed-again-after-read")
+            if validate_forest(ctx, tag, None, n, adm, fset, fsnap, forest=forest) is None:
+                return
+            ok, r = ctx.call(tag + "recompute", run)
+            if not ok:
+                return
+            tag = tag + "recomputed:"
     if fset is not None:
         ctx.check(fset == fsnap, tag + "input-mutated",
                   f"the caller's forbidden_edges set was modified by the forest ({len(fsnap)} ids before, {len(fset)} after)")
@@ -1443,6 +1876,20 @@ def self_test():
     assert has_cycle(*mod.links("vertex")) and not has_cycle(*mod.links("face"))
     mv = Model({"kind": "volume", "V": T.two()[0], "C": T.two()[1]})
     assert mv.links("cell") == (2, [(0, 1, (0, 1, 2))]) and len(mv.border_edges) == 9
+    # the compact strips are valid meshes (checked here at a small size; the huge ones are trusted) with the advertised counts
+    ts = dict(expand_mesh({"kind": "tristrip", "k": 6}))
+    ts.pop("trusted")
+    mt = Model(ts)
+    assert mt.nV == 12 and mt.nF == 10 and len(mt.edge_keys) == 21 and len(mt.face_links) == 9 and len(mt.border_edges) == 12
+    ks = dict(expand_mesh({"kind": "kuhnstrip", "k": 3}))
+    ks.pop("trusted")
+    mk = Model(ks)
+    mkf = Model(expand_mesh({"kind": "kuhnstrip", "k": 3}))               # the fast route for trusted strips gives the same tables
+    assert (mkf.edge_keys, mkf.face_keys, mkf.cell_links, set(mkf.border_edges), mkf.nC) == (mk.edge_keys, mk.face_keys, mk.cell_links, set(mk.border_edges), mk.nC)
+    assert mk.nV == 16 and mk.nC == 18 and len(R.partition(mk.nC, [(a, b) for a, b, _ in mk.cell_links])) == 1
+    assert compact_count({"kind": "tristrip", "k": 6}) == 12 and compact_count({"kind": "kuhnstrip", "k": 3}) == 16
+    assert is_default(None, None) and is_default(np.bool_(False), False) and is_default(0, False) and not is_default(1, False)
+    assert is_default("length", "length") and not is_default({}, "length") and not is_default(0, None)
 
 
 SUBCHECKS = [
@@ -1450,11 +1897,12 @@ SUBCHECKS = [
     # if the orientation loop of the MST ever runs on a cyclic edge set it grows its queue without bound (~1 GB/s): memory is bounded by
     # memory_cap (a MemoryError becomes a violation); the shorter watchdog only stops the slowly growing variants early
     SubCheck("edge_mst", mst_case(), fn_mst, quick=1200, thorough=2500, watchdog=(10, 30)),
-    SubCheck("face_tree", face_tree_case(), fn_face_tree, quick=900, thorough=2000),
-    SubCheck("cell_tree", cell_tree_case(), fn_cell_tree, quick=600, thorough=1500),
+    SubCheck("face_tree", face_tree_case(), fn_face_tree, quick=900, thorough=2000, watchdog=(90, 180)),      # size-regime cases take seconds
+    SubCheck("cell_tree", cell_tree_case(), fn_cell_tree, quick=600, thorough=1500, watchdog=(90, 180)),
     SubCheck("forests", forest_case(), fn_forest, quick=900, thorough=2000, watchdog=(90, 180)),
     # size regime: open paths whose hop depth from the root crosses 2**15 (2**16); seconds per case, hence their own small budgets
-    SubCheck("edge_tree_deep", deep_edge_tree_case(), fn_edge_tree, quick=16, thorough=40, watchdog=(120, 240)),
+    # (one case in four is a minimal spanning tree over more than 2**16 / 10**5 edges instead: edge_mst keeps a short watchdog)
+    SubCheck("edge_tree_deep", deep_vertex_tree_case(), fn_deep_vertex_tree, quick=16, thorough=40, watchdog=(120, 240)),
     SubCheck("forests_deep", deep_forest_case(), fn_forest, quick=8, thorough=16, watchdog=(120, 240)),
 ]
 
